@@ -89,6 +89,29 @@ CHECKS = {
              "(its inner sites use scipy's default rtol 1e-3 inside the library).",
         technique="property-based testing (Hypothesis) with dense-propagator oracle, exact algebraic replicas and differential (solver vs solver) relations",
     ),
+    "C10": dict(
+        category="exploration",
+        text="Generated cases in seven modes: imaginary-time PS / PS2 / VMF (all solvers, successive calls) vs the normalised "
+             "exp(-tau H) psi; Taylor / RK4 / general-RK P&C with imaginary guess_dt vs the algebraic replica (also adaptive, also MpDm); "
+             "imaginary-time CMF within the scheme's bound; ThermalProp from the maximally entangled state of generated Holstein models "
+             "(schemes 1-4, zero- and one-exciton) vs a dense replica with the same energy re-centring and vs canonical Gibbs averages; "
+             "exact thermal propagation and the closed-form local propagator (GS/EX, real/imaginary/complex x, shift) vs the dense "
+             "exponential of the documented local Hamiltonian; evolve_exact for two offsets (same result, input untouched).",
+        design_ref="DESIGN.md §4 C10",
+        note="Trusted: numpy eigh-based exponentials, harness ladder matrices for the local Hamiltonian; dense Holstein H via Mpo.todense (C16). "
+             "tau*||H|| <= 3; tree purification is covered in C12.",
+        technique="property-based testing (Hypothesis) with dense Gibbs/propagator oracle, algebraic replicas and a metamorphic offset relation",
+    ),
+    "C15": dict(
+        category="exploration",
+        text="Generated expression programs over Op / OpSum / lists / scalars (all public operators, both operand orders, in-place add, "
+             "simplify with tolerances, squeeze_identity, split_elementary, copy, invalid operands) evaluated in lock step by a harness "
+             "dense evaluator; homomorphism laws, simplify bound and canonical form, eq/hash consistency on operators built by different "
+             "routes, and the tie-in Mpo(model, expr).todense() == den(expr).",
+        design_ref="DESIGN.md §4 C15",
+        note="Trusted: harness evaluator (single-symbol local matrices, written-order products). Models of 1-4 sites.",
+        technique="property-based testing (Hypothesis-generated expression programs) against a dense evaluator (homomorphism oracle)",
+    ),
     "C16": dict(
         category="exploration",
         text="Every basis class x every supported symbol x generated sizes/frequencies/origins/grids (a completely enumerated grid "
